@@ -7,7 +7,7 @@
      src/compute/grid/placement.rs       place_grid_items (3 phases), place_definite_grid_item, place_definite_secondary_axis_item,
                                          place_indefinitely_positioned_item, record_grid_placement
      src/compute/grid/track_sizing.rs    resolve_item_track_indexes
-     src/compute/grid/mod.rs             the placement section of compute_grid_layout (estimate over ALL children, placement over
+     src/compute/grid/mod.rs             the placement section of compute_grid_layout (estimate over all box-generating children, placement over
                                          the in-flow children, sort by source order) and DetailedGridItemsInfo::from_grid_item
    Every table / conversion helper comes from Gen/PlacementGen.v (regenerated from the source on every run).
 
@@ -443,10 +443,15 @@ Fixpoint enumerate_from {A} (i : Z) (l : list A) : list (Z * A) :=
 Definition in_flow_children (children : list (child_kind * child)) : list (Z * child) :=
   map (fun '(i, (_, c)) => (i, c)) (filter (fun '(_, (k, _)) => is_in_flow k) (enumerate_from 0 children)).
 
+(* the children whose styles feed the size estimate: all box-generating ones (display:none children are filtered out,
+   absolutely positioned ones are not) *)
+Definition estimate_children (children : list (child_kind * child)) : list child :=
+  map snd (filter (fun kc : child_kind * child => match fst kc with Hidden => false | _ => true end) children).
+
 (* the placement section of compute_grid_layout + what detailed_layout_info reports *)
 Definition grid_placement_run (explicit_col_count explicit_row_count : Z) (auto_flow : flow)
            (children : list (child_kind * child)) : res outcome :=
-  do '(est_col_counts, est_row_counts) <- compute_grid_size_estimate explicit_col_count explicit_row_count (map snd children);
+  do '(est_col_counts, est_row_counts) <- compute_grid_size_estimate explicit_col_count explicit_row_count (estimate_children children);
   do m0 <- with_track_counts est_col_counts est_row_counts;
   do '(m, items) <- place_grid_items m0 (in_flow_children children) auto_flow;
   let final_col_counts := track_counts m Horizontal in
